@@ -289,7 +289,7 @@ func memTagsOf(t types.Type) []int {
 		for i := 0; i < u.NumFields(); i++ {
 			ft := u.Field(i).Type()
 			ts := memTagsOf(ft)
-			if _, isArr := ft.Underlying().(*types.Array); isArr {
+			if ownBlock(ft) {
 				tg := fieldTag(t, i)
 				for _, x := range ts {
 					out = append(out, x+tg)
@@ -331,7 +331,19 @@ func fieldTag(structT types.Type, field int) int {
 	if t, ok := fieldTags[k]; ok {
 		return t
 	}
-	t := len(fieldTags)%31 + 1
+	t := len(fieldTags)%60 + 1
 	fieldTags[k] = t
 	return t
+}
+
+// ownBlock: fields of array type, and struct-typed fields that are themselves parser objects (eight cells or
+// more), live in a sub-block of their own
+func ownBlock(ft types.Type) bool {
+	switch ft.Underlying().(type) {
+	case *types.Array:
+		return true
+	case *types.Struct:
+		return spanOf(ft) >= 8
+	}
+	return false
 }
